@@ -1183,7 +1183,7 @@ CHECKS = {
     "C17": {"level": "model_checking", "run": run_C17, "assumptions": ASSUME_COMMON,
             "rule": "MC_Isa: slots varying each byte position over all 256 values in 3 contexts (opcode, register byte, 4 immediate lanes) and the two offset bytes over all 65,536 values; invariant Encode(Decode(s)) = s and Decode(Encode(Decode(s))) = Decode(s); replayed through Insn::to_array, Insn::to_vec, get_insn at indices 0/1/7/1000, to_insn_vec; every builder constructor x Source x Arch x MemSize x Cond x Endian x boundary fields against Isa!Encode, Insn::to_array and (where a mnemonic exists) Asm / assemble; distinct by slot / constructor+fields"},
     "C13": {"level": "model_checking", "run": run_C13, "assumptions": ASSUME_COMMON + ["the harness's renderer (tokens -> text) is the only concrete-syntax step"],
-            "rule": "MC_Text asm families: every mnemonic x its operand shape(s) x registers {0,9,10,15,16,99} x offsets around +-32768 x immediates around +-2^31 x 4 spellings (decimal/hex, explicit sign); every mnemonic with every other shape's operands; non-mnemonics; multi-instruction sequences (order, error in the middle, mnemonic after an operand-less instruction); literal classes up to 40 digits; Asm!Assemble gives bytes or refusal, DecodeOK checked in the model; replayed through rbpf::assembler::assemble; distinct by token program"},
+            "rule": "MC_Text asm families: every mnemonic x its operand shape(s) x registers {0,9,10,15,16,99} x offsets around +-32768 x immediates around +-2^31 x 4 spellings (decimal/hex, explicit sign); every mnemonic with every other shape's operands; non-mnemonics; multi-instruction sequences (order, error in the middle, mnemonic after an operand-less instruction); literal classes up to 40 digits; Asm!Assemble gives bytes or refusal, DecodeOK checked in the model; replayed through rbpf::assembler::assemble; distinct by token program; every case is assembled in five white-space layouts of the grammar (canonical, indented with tabs and blank lines, no blank after commas, whole program on one line, line breaks after commas with CR LF) and must give the same answer"},
     "C14": {"level": "exploration", "run": run_C14, "assumptions": ASSUME_COMMON,
             "rule": "literal / shape / sequence classes of MC_Text (Asm!LitValue classifies every literal: decimal up to 40 digits, hex up to 20, signs, +-2^63 boundaries, huge register numbers, truncated operands) replayed for panics and time-outs, plus seeded string fuzzing (printable ASCII, arbitrary Unicode, token soup over a vocabulary with extreme literals, mutations of valid programs) in child processes with a 5 s watchdog; plus a deterministic corpus: words of every byte length up to 135 ending in a 2-, 3- or 4-byte letter (every byte offset inside a multi-byte character) in mnemonic / register / immediate / label position, and digit strings of every length 1..45 (9s, 1 followed by zeros, f's, signed, hex) in every operand position; distinct = distinct input strings"},
     "C15": {"level": "model_checking", "run": run_C15, "assumptions": ASSUME_COMMON + ["the harness's renderer (tokens -> text)"],
